@@ -1095,8 +1095,10 @@ def lower_conditional_values(trees):
                     block(hd.body, fq)
             val = st.value if isinstance(st, (ast.Return, ast.Assign)) else None
             if isinstance(val, ast.IfExp) and not any(isinstance(n, (ast.NamedExpr, ast.Yield, ast.YieldFrom, ast.Await)) for n in ast.walk(val)) \
-                    and (isinstance(st, ast.Return) or (len(st.targets) == 1 and isinstance(st.targets[0], ast.Name)
-                                                         and not any(isinstance(n, ast.Name) and n.id == st.targets[0].id for n in ast.walk(val.test)))):
+                    and (isinstance(st, ast.Return) or (len(st.targets) == 1 and (
+                        (isinstance(st.targets[0], ast.Name) and not any(isinstance(n, ast.Name) and n.id == st.targets[0].id for n in ast.walk(val.test)))
+                        or (isinstance(st.targets[0], ast.Attribute) and isinstance(st.targets[0].value, ast.Name)
+                            and not any(isinstance(n, ast.Attribute) and n.attr == st.targets[0].attr for n in ast.walk(val.test)))))):
                 def mk(v):
                     new = copy.copy(st)
                     new.value = v
@@ -1116,4 +1118,79 @@ def lower_conditional_values(trees):
         for n in ast.walk(t):
             if isinstance(n, (ast.FunctionDef, ast.AsyncFunctionDef)):
                 block(n.body, f"{m}:{n.name}")
+    return log
+
+
+# ---- dispatch through a literal dict ----------------------------------------------------------------------------------------------
+def expand_dispatch_dicts(trees):
+    """`if k in D: x = D[k](args)` with D a literal dict {"a": A, "b": B} of names (module level or bound once in the function) is
+    `x = A(args) if k == "a" else B(args)`: under the membership test the lookup can only give one of the listed values. The call graph and
+    the def-use engine then see the constructors / functions that are actually called."""
+    log = []
+
+    def literal_dict(name, module_tree, fn):
+        cands = []
+        for scope in ([fn] if fn is not None else []) + [module_tree]:
+            for st in scope.body:
+                if isinstance(st, ast.Assign) and len(st.targets) == 1 and isinstance(st.targets[0], ast.Name) and st.targets[0].id == name:
+                    cands.append(st.value)
+            if cands:
+                break
+        if len(cands) != 1 or not isinstance(cands[0], ast.Dict) or not cands[0].keys:
+            return None
+        d = cands[0]
+        if not all(isinstance(k, ast.Constant) and isinstance(v, (ast.Name, ast.Attribute)) for k, v in zip(d.keys, d.values)):
+            return None
+        return list(zip(d.keys, d.values))
+
+    class _Sub(ast.NodeTransformer):
+        def __init__(self, dname, key_dump, value):
+            self.dname, self.key_dump, self.value, self.hits = dname, key_dump, value, 0
+
+        def visit_Subscript(self, n):
+            self.generic_visit(n)
+            if isinstance(n.value, ast.Name) and n.value.id == self.dname and isinstance(n.ctx, ast.Load) and ast.dump(n.slice) == self.key_dump:
+                self.hits += 1
+                return ast.copy_location(copy.deepcopy(self.value), n)
+            return n
+
+    def rewrite(stmts, t, fn, fq):
+        for idx, node in enumerate(stmts):
+            for fld in ("body", "orelse", "finalbody"):
+                blk = getattr(node, fld, None)
+                if isinstance(blk, list) and blk and isinstance(blk[0], ast.stmt) and not isinstance(node, (ast.FunctionDef, ast.AsyncFunctionDef, ast.ClassDef)):
+                    rewrite(blk, t, fn, fq)
+            for hd in getattr(node, "handlers", []) or []:
+                rewrite(hd.body, t, fn, fq)
+            if isinstance(node, ast.If) and isinstance(node.test, ast.Compare) and len(node.test.ops) == 1 and isinstance(node.test.ops[0], ast.In) \
+                    and isinstance(node.test.comparators[0], ast.Name):
+                dname = node.test.comparators[0].id
+                items = literal_dict(dname, t, fn)
+                if not items or len(items) > 6:
+                    continue
+                key = node.test.left
+                uses = sum(1 for b in node.body for n in ast.walk(b) if isinstance(n, ast.Subscript) and isinstance(n.value, ast.Name) and n.value.id == dname
+                           and ast.dump(n.slice) == ast.dump(key))
+                stores = any(isinstance(n, ast.Name) and n.id in {x.id for x in ast.walk(key) if isinstance(x, ast.Name)} and not isinstance(n.ctx, ast.Load)
+                             for b in node.body for n in ast.walk(b))
+                if not uses or stores:
+                    continue
+                # if k in D: BODY(D[k])   ->   if k == "a": BODY(A) elif k == "b": BODY(B) [else: the original else]
+                chain = node.orelse
+                for k_, v_ in reversed(items):
+                    tr = _Sub(dname, ast.dump(key), v_)
+                    body_i = [tr.visit(copy.deepcopy(b)) for b in node.body]
+                    test = ast.Compare(left=copy.deepcopy(key), ops=[ast.Eq()], comparators=[copy.deepcopy(k_)])
+                    new = ast.If(test=test, body=body_i, orelse=chain)
+                    ast.copy_location(new, node)
+                    if hasattr(node, "_src"):
+                        new._src = node._src
+                    ast.fix_missing_locations(new)
+                    chain = [new]
+                stmts[idx] = chain[0]
+                log.append((fq, getattr(node, "lineno", 0)))
+
+    for m, t in trees.items():
+        for fn in [n for n in ast.walk(t) if isinstance(n, (ast.FunctionDef, ast.AsyncFunctionDef))]:
+            rewrite(fn.body, t, fn, f"{m}:{fn.name}")
     return log
